@@ -476,7 +476,15 @@ def judge_sequences(ctx, rng, j):
     g = f ^ rng.choice((1, 2, 4, 0x40))
     if sigmsg.message(fields, g) == sigmsg.message(fields, f):
         variants.append(sig[:64] + (bytes([g]) if g else b''))
+    # the same 64 bytes under ANOTHER flag byte (or none): another message,
+    # so a verdict of its own - whatever the check before it found
+    h = f ^ (1 << rng.randrange(8))
+    variants.append(sig[:64] + (bytes([h]) if h else b''))
+    if f:
+        variants.append(sig[:64])
     steps = [(sig, pa)]
+    if rng.random() < 0.5:
+        steps.append((variants[-1], pa))
     for _ in range(rng.randrange(1, 4)):
         steps.append((rng.choice(variants), rng.choice((pa, pb, pb))))
     prog = b''
